@@ -24,7 +24,7 @@ TRUSTED = [
 
 
 def cases_for(tier, seed, extra_pinned=()):
-    n = 40 if tier == "quick" else 600
+    n = 28 if tier == "quick" else 600
     return (list(corpus.PINNED) + list(corpus.OPTION_CASES) + list(extra_pinned) + corpus.random_cases(seed, n)
             + corpus.random_expr_cases(seed, n // 4))
 
